@@ -5,6 +5,7 @@
 -/
 import ErgoProofs.Lemmas.StorageThm
 import ErgoProofs.Lemmas.CodecInst
+import ErgoProofs.Lemmas.ProcBytesThm
 namespace Ergo
 open Storage
 
@@ -70,5 +71,17 @@ theorem C03_torn_write_json (ets : Event → String) (f : Bytes) (es evs : List 
 theorem C03_commands_write_recoverable_events (log : List Event) (hl : Codec.AllWf log) (env : Env) (he : Codec.EnvT env) (req : Request) :
     Codec.AllWf (runCmd log env req).log :=
   Codec.runCmd_wf log hl env he req
+
+
+/-- processes, schedules and kills together: whatever the interleaving of any number of writers and readers, whoever is killed wherever —
+    between two system calls or inside its `write(2)` at any byte —, every file that ever had the log's name still loads -/
+theorem C03_store_loads_under_every_schedule_and_kill {a b : ProcB.BSys} (h : ProcB.BReachable a b) (ha : ProcB.Inv a) : ProcB.Inv b :=
+  ProcB.reach_inv h ha
+
+/-- … and a death inside a write shows everything from before plus a whole number of the batch's events, touches no other file and leaves the
+    log's name where it was; every other step is a step of the process model -/
+theorem C03_death_inside_a_write_shows_a_prefix (s s' : ProcB.BSys) (hinv : ProcB.Inv s) (h : ProcB.BStep s s') :
+    ProcB.Inv s' ∧ (Proc.Step (ProcB.abs s) (ProcB.abs s') ∨ (ProcB.Torn s s' ∧ ProcB.TornResult s s')) :=
+  ProcB.step_sim s s' hinv h
 
 end Ergo
